@@ -87,13 +87,16 @@ Kinds(ts) ==
   IN [i \in 1..Len(ts) |->
         IF ts[i] = " " /\ inside[i] THEN (IF ts[i-1] \in Openers \/ (i < Len(ts) /\ ts[i+1] = "%>") THEN "edge"
                                          ELSE IF quotes(i) % 2 = 0 /\ (ts[i-1] \in OpTokens \/ (i < Len(ts) /\ ts[i+1] \in OpTokens)) THEN "opsep" ELSE "sep")
-        ELSE IF ts[i] = "%>" /\ i < Len(ts) /\ ts[i+1] = "<%" /\ opener(i) = "<%" THEN "join"
+        \* (also the end of an OUTPUT tag directly followed by a code tag: the tag's further statements are silent ones)
+        ELSE IF ts[i] = "%>" /\ i < Len(ts) /\ ts[i+1] = "<%" /\ opener(i) \in {"<%", "<%="} THEN "join"
         ELSE IF ts[i] = "%>" THEN "end"
         \* a gap: this token and the next one are adjacent (no separator), one of them is punctuation, not inside a string;
         \* the layout may put white space AFTER this token
         ELSE IF inside[i] /\ i < Len(ts) /\ ts[i] \notin ({" ", "NL"} \cup Openers) /\ ts[i+1] \notin {" ", "%>"} /\ (ts[i] \in Punct \/ ts[i+1] \in Punct)
                 /\ ts[i] # "." /\ ts[i+1] # "."                     \* a dot belongs to the path it stands in
                 /\ quotes(i) % 2 = 0 /\ opener(i) # "<%#" THEN "gap"
+        \* ... except after the dot that continues a path behind an index or a call (x[i]. Name, f(). Name): white space may follow it
+        ELSE IF inside[i] /\ i > 1 /\ i < Len(ts) /\ ts[i] = "." /\ ts[i-1] \in {"]", ")"} /\ quotes(i) % 2 = 0 /\ opener(i) # "<%#" THEN "gap"
         ELSE ""]
 
 VARIABLES pi, lay, pos, done,     \* program index, layout chosen so far (function position -> alternative), next position
